@@ -219,17 +219,9 @@ def s_harness(params, prefix, part):
     try:
         for ev in params.get('prefix', ()):
             st.apply(tuple(ev))
-        if params.get('server') == 'refuse':
-            # the first connection attempt made from now on is refused by the node, later ones are accepted
-            real_on_connect, left = st.srv.on_connect, [1]
-
-            def on_connect(conn):
-                real_on_connect(conn)
-                if left[0] > 0:
-                    left[0] -= 1
-                    conn.world.trace('conn.refused', conn.vid)
-                    raise OSError(111, 'Tried connecting to [(%r, 9042)]. Last error: Connection refused' % (conn.endpoint.address,))
-            st.srv.on_connect = on_connect
+        if params.get('server', 'ok') != 'ok':
+            # how the node treats the first connection attempt made from now on (c45lib.FAULTS); later ones are served
+            st.fail_next_connection(params['server'])
         s = sched.Scheduler(prefix, focus=_FOCUS, horizon=params.get('horizon', 60000), clock=st.w.clock)
         kind = params['kind']
         clients = [('shutdown', lambda: st.shutdown(kind))]
@@ -242,6 +234,9 @@ def s_harness(params, prefix, part):
                 except Exception as e:
                     res['connect'] = type(e).__name__
             clients.insert(0, ('connect', do_connect))
+        if st.held_use():
+            # the node's answer to the application's USE (sent in the prefix) arrives at some moment of the schedule
+            clients.append(('node-answers-use', st.release_use))
         c45lib.run_schedule(st, s, clients, nworkers=params.get('workers', 1))
         data['prefix'] = s.choices()
         if s.failure:
@@ -267,6 +262,17 @@ def s_harness(params, prefix, part):
             part.count('histories_with_handshake_completed_after_shutdown_began')
         if opened_before_done_after:
             part.count('S_histories_with_connection_mid_handshake_at_shutdown')
+        done = ('draining', 'returned')
+        if any(a[0] in (None, 'in') and a[1] in done and a[2] == 'failed' for a in trk.attempt_log):
+            part.count('S_histories_with_attempt_under_way_at_shutdown_failing_after_it')
+        if any(a[0] in (None, 'in') and a[1] in done and a[2] == 'connected' for a in trk.attempt_log):
+            part.count('S_histories_with_attempt_under_way_at_shutdown_connecting_after_it')
+        for c in st.w.conns:
+            if c.creator in c45lib.POOL_KINDS and len(set(u[0] for u in c.use_log)) > 1:
+                part.count('S_histories_with_keyspace_switch_on_connection_being_opened')
+                if any(u[1] == 'before' and u[2] not in ('before', None) for u in c.use_log[1:]):
+                    part.count('S_histories_with_shutdown_inside_that_keyspace_switch')
+                break
         part.sample({'layer': 'S', 'scenario': params['scenario'], 'kind': kind, 'choices': s.choices(),
                      'state_at_shutdown': flags, 'connect': res.get('connect')}, limit=1)
         st.judge(part, data, 'S')
